@@ -1151,6 +1151,9 @@ def check_C02(tier, seed):
         for _ in range(30 if tier == "quick" else 300):
             s = occluder_sprite(rng)
             out.append((s, gen.encode(s, None, rng)))
+        for vertical in (False, True):
+            s = far_tilemap_sprite(rng, vertical)
+            out.append((s, gen.encode(s, None, rng)))
         return out
     return run_sprites("C02", tier, seed, 2, 300, 4000, dict(max_canvas=10, max_layers=8, max_frames=3, rich=False), [1, 22],
                        direct_C02,
@@ -1360,6 +1363,21 @@ def check_C08(tier, seed):
                "cels": {(0, 0): {"kind": "tilemap", "x": 0, "y": 0, "w": 256, "h": 257, "opacity": 255, "tiles": tiles, "ud": None}},
                "tags": [], "has_tags_chunk": False, "slices": []}
         out.append((big, gen.encode(big, None, rng)))
+        # the same size with UNPREDICTABLE tile ids over a 251-tile tileset (the compressed tile stream is then far larger than any
+        # buffer an inflater works with: about 66 KB), stored at level 6 and as stored blocks
+        for zl_ in (6, "stored"):
+            import copy as _c
+            noisy = _c.deepcopy(big)
+            noisy["tilesets"][0]["count"] = 251
+            noisy["tilesets"][0]["pixels"] = [(0, 0, 0, 0)] + [((k * 5) & 255, (k * 11) & 255, k, 255) for k in range(1, 251)]
+            noisy["cels"][(0, 0)]["tiles"] = [rng.randrange(251) for _ in range(256 * 257)]
+            ch = gen.default_choices()
+            ch["zlevels"] = [zl_]
+            out.append((noisy, gen.encode(noisy, ch, rng)))
+        # tiles that start beyond coordinate 32767
+        for vertical in (False, True):
+            fs = far_tilemap_sprite(rng, vertical)
+            out.append((fs, gen.encode(fs, None, rng)))
         return out + extreme_canvas_sprites(rng, 10 if tier == "quick" else 100)
     return run_sprites("C08", tier, seed, 12, 50, 500, dict(max_canvas=12, max_layers=4, max_frames=2, rich=False),
                        [1, 19, 20, 25, 26, 27], direct_C08,
@@ -1712,6 +1730,26 @@ def covering_sprite(g: int, rng: random.Random) -> dict:
             "has_tags_chunk": False, "slices": []}
 
 
+def far_tilemap_sprite(rng: random.Random, vertical: bool) -> dict:
+    """a tilemap whose last tiles start beyond coordinate 32767 (129 tiles of 256 pixels along one axis of a 33024-pixel canvas):
+    every tile has its own colour, so a tile drawn at a clamped or wrapped position shows"""
+    n, tl = 129, 256
+    tw, th = (2, tl) if vertical else (tl, 2)
+    cols = [(0, 0, 0, 0)] + [((37 * k) & 255, (k * 2) & 255, 200 - k, 255) for k in range(1, 8)]
+    pixels = []
+    for k in range(8):
+        pixels += [cols[k]] * (tw * th)
+    tiles = [1 + (k % 7) for k in range(n)]
+    off = rng.choice([0, 0, 1]) * tl
+    W, H = (2, n * tl + off) if vertical else (n * tl + off, 2)
+    cel = {"kind": "tilemap", "x": 0 if vertical else off, "y": off if vertical else 0, "w": 1 if vertical else n, "h": n if vertical else 1, "opacity": 255,
+           "tiles": tiles, "ud": None}
+    return {"width": W, "height": H, "depth": 32, "transparent": 0, "durations": [100], "speed": 100, "palette_chunks": [], "palette": None,
+            "sprite_ud": None, "ext_files": [], "tilesets": [{"id": 0, "count": 8, "tw": tw, "th": th, "base": 1, "name": "far", "ext": None, "empty0": True, "pixels": pixels}],
+            "layers": [{"flags": 1, "ltype": 2, "level": 0, "blend": 0, "opacity": 255, "name": "m", "tileset": 0, "ud": None, "default_w": 0, "default_h": 0}],
+            "cels": {(0, 0): cel}, "tags": [], "has_tags_chunk": False, "slices": []}
+
+
 def occluder_sprite(rng: random.Random) -> dict:
     """a layer above the bottom one that LOOKS like an occluder - visible, flagged background, Normal mode, layer and cel opacity
     255, a stored cel covering the canvas exactly (or more) - but whose pixels are partly translucent or transparent: what lies
@@ -1729,8 +1767,10 @@ def occluder_sprite(rng: random.Random) -> dict:
     grow = rng.choice([0, 0, 1])
     layers.append({"flags": 1 | 8 | rng.choice([0, 2, 4]), "ltype": 0, "level": 0, "blend": 0, "opacity": 255, "name": "bg-flagged", "tileset": 0, "ud": None,
                    "default_w": 0, "default_h": 0})
-    cels[(0, nbelow)] = {"kind": rng.choice(["raw", "zlib"]), "x": -grow, "y": -grow, "w": W + 2 * grow, "h": H + 2 * grow, "opacity": 255,
-                         "pixels": img(W + 2 * grow, H + 2 * grow, [0, 0, 128, 255, 1, 254]), "ud": None}
+    # ... or are all opaque while the CEL opacity is below 255
+    celop = rng.choice([255, 255, 254, 128, 0])
+    cels[(0, nbelow)] = {"kind": rng.choice(["raw", "zlib"]), "x": -grow, "y": -grow, "w": W + 2 * grow, "h": H + 2 * grow, "opacity": celop,
+                         "pixels": img(W + 2 * grow, H + 2 * grow, [0, 0, 128, 255, 1, 254] if celop == 255 else [255]), "ud": None}
     if rng.random() < 0.5:
         layers.append({"flags": 1, "ltype": 0, "level": 0, "blend": rng.randrange(19), "opacity": rng.choice([255, 77]), "name": "above", "tileset": 0, "ud": None,
                        "default_w": 0, "default_h": 0})
